@@ -19,7 +19,10 @@ pub fn regex_term(ctx: &Ctx, token: Token) -> RegexTerm {
 }
 pub type IntConst = ValSpan<u32>;
 pub fn int_const(ctx: &Ctx, token: Token) -> IntConst {
-    IntConst::new(token.value.parse().unwrap(), Some(ctx.span()))
+    // The token consists of digits only so the only way for the conversion
+    // to fail is overflow. Saturate instead of panicking; priorities are
+    // range checked when the grammar is built.
+    IntConst::new(token.value.parse().unwrap_or(u32::MAX), Some(ctx.span()))
 }
 pub type FloatConst = ValSpan<f32>;
 pub fn float_const(ctx: &Ctx, token: Token) -> FloatConst {
